@@ -1057,7 +1057,7 @@ def q14(rep, tier):
     here under C02."""
     from . import c04_builtins
     try:
-        r4 = c04_builtins.run(tier)
+        r4 = c04_builtins.run(tier, library=True)
     except AnalysisBroken as e:
         if not rep.violations:
             raise
